@@ -1,3 +1,3 @@
-import Driver.Loop
-/-! Driver for group `cand`: replace `[]` by this group's handlers. -/
-def main : IO Unit := TF.Driver.run []
+import Driver.Cand
+/-! Driver for group `cand` (C06). -/
+def main : IO Unit := TF.Driver.run [TF.Driver.handleCand]
